@@ -204,7 +204,11 @@ class SymmetryAnalyzer(object):
         Returns:
             bool: is the object chiral.
         """
-        operations = self.get_symmetry_operations()
+        # The operations of the space group type are used instead of the
+        # operations reported for the original cell: the latter only contain
+        # the operations that map the lattice of the given (super)cell onto
+        # itself.
+        operations = spglib.get_symmetry_from_database(self.get_hall_number())
         rotations = operations["rotations"]
         chiral = True
         for rotation in rotations:
